@@ -198,7 +198,7 @@ func (e *Engine) verifyFunc(fn *ssa.Function) (u *Unit) {
 				u.staleClauses = append(u.staleClauses, fmt.Sprintf("%s: assertion %s -- %s", funcName(fn), cl.Label, e.broken[cl.FnName]))
 				continue
 			}
-			if !u.assertsSeen[cl.Label] {
+			if !u.assertsSeen[cl.Label] && !cl.Each {
 				u.oblige(fr.obName("assert", cl.Label), "assert", cl.Tags, "true", "false", fr.pos(fn.Pos()),
 					"anchor call site not found: "+cl.Callee+" #"+fmt.Sprint(cl.Ordinal)+" -- "+cl.Text)
 			}
@@ -445,7 +445,9 @@ func (fr *frame) callSiteAsserts(call ssa.CallInstruction, args []*Val, st *Stat
 				lv = fr.localByType(name, cl.Fn.Params[len(sargs)].Type(), call, st)
 			}
 			if lv == nil {
-				fr.u.eng.stale = append(fr.u.eng.stale, "assert@call "+cl.Label+": local "+name+" not found")
+				if !strings.HasSuffix(name, "?") && !strings.HasPrefix(name, "reached:") {
+					fr.u.eng.stale = append(fr.u.eng.stale, "assert@call "+cl.Label+": local "+name+" not found")
+				}
 				okLocals = false
 				break
 			}
@@ -613,8 +615,35 @@ func (fr *frame) localNamedT(name string, at ssa.Instruction, st *State) (*Val, 
 	}
 	var cands []cand
 	atBlock := at.Block()
+	// blocks from which the anchor's block can be reached (forward edges only): a definition elsewhere is not the
+	// variable's value at the anchor, whatever its position in the source
+	reaches := map[*ssa.BasicBlock]bool{atBlock: true}
+	if opt {
+		work := []*ssa.BasicBlock{atBlock}
+		for len(work) > 0 {
+			b := work[len(work)-1]
+			work = work[:len(work)-1]
+			for _, p := range b.Preds {
+				if !reaches[p] && !b.Dominates(p) {
+					reaches[p] = true
+					work = append(work, p)
+				}
+			}
+		}
+	}
+	anyDef := false
 	for _, b := range fr.fn.Blocks {
 		if !(b == atBlock || b.Dominates(atBlock)) && !opt {
+			continue
+		}
+		if opt && !reaches[b] {
+			for _, in := range b.Instrs {
+				if d, ok := in.(*ssa.DebugRef); ok {
+					if id, ok := d.Expr.(*ast.Ident); ok && id.Name == name {
+						anyDef = true
+					}
+				}
+			}
 			continue
 		}
 		for i, in := range b.Instrs {
@@ -645,6 +674,9 @@ func (fr *frame) localNamedT(name string, at ssa.Instruction, st *State) (*Val, 
 		}
 	}
 	if len(cands) == 0 {
+		if wantReach && anyDef {
+			return &Val{t: "false"}, types.Typ[types.Bool] // defined only where the anchor cannot be reached from
+		}
 		return nil, nil
 	}
 	best := cands[0]
@@ -787,7 +819,9 @@ func (fr *frame) storeSiteAsserts(x *ssa.Store, st *State, reach string) {
 				lv = fr.localByType(ln, cl.Fn.Params[len(sargs)].Type(), x, st)
 			}
 			if lv == nil {
-				fr.u.eng.stale = append(fr.u.eng.stale, "assert@store "+cl.Label+": local "+ln+" not found")
+				if !strings.HasSuffix(ln, "?") && !strings.HasPrefix(ln, "reached:") {
+					fr.u.eng.stale = append(fr.u.eng.stale, "assert@store "+cl.Label+": local "+ln+" not found")
+				}
 				ok = false
 				break
 			}
@@ -806,68 +840,118 @@ func (fr *frame) storeSiteAsserts(x *ssa.Store, st *State, reach string) {
 }
 
 
-// mapUpdateAsserts: assert@store <field>[] #n (k K, v V) uses ... label: expr -- anchored at the n-th update `x.field[k] = v`
-// (or `global[k] = v`) in source order.
+// mapUpdateAsserts: assert@store <name>[] #n (k K, v V, prev V) uses ... label: expr -- anchored at the n-th update
+// `m[k] = v` (source order) of a map called <name>: a field `x.name`, a package variable `name`, a local variable
+// `name`, or a map of the named type `name` - so that the anchor survives the map being built in a local first.
+// `prev` is what the map held under k before the update (the zero value if nothing).
 func (fr *frame) mapUpdateAsserts(x *ssa.MapUpdate, st *State, reach string) {
-	if fr.depth != 0 || fr.contract == nil || fr.pure {
+	root := fr.anchorRoot()
+	if root == nil {
 		return
 	}
-	nameOf := func(m *ssa.MapUpdate) string {
+	namesOf := func(f *frame, m *ssa.MapUpdate) []string {
+		var ns []string
+		if nt, ok := m.Map.Type().(*types.Named); ok {
+			ns = append(ns, nt.Obj().Name()+"[]")
+		}
 		switch v := m.Map.(type) {
 		case *ssa.UnOp:
 			if fa, ok := v.X.(*ssa.FieldAddr); ok {
 				if stt, ok := fa.X.Type().Underlying().(*types.Pointer).Elem().Underlying().(*types.Struct); ok {
-					return stt.Field(fa.Field).Name() + "[]"
+					ns = append(ns, stt.Field(fa.Field).Name()+"[]")
 				}
 			}
 			if g, ok := v.X.(*ssa.Global); ok {
-				return g.Name() + "[]"
+				ns = append(ns, g.Name()+"[]")
+			}
+			if a, ok := v.X.(*ssa.Alloc); ok && a.Comment != "" {
+				ns = append(ns, a.Comment+"[]")
 			}
 		}
-		return ""
-	}
-	name := nameOf(x)
-	if name == "" {
-		return
-	}
-	for _, cl := range fr.contract.Asserts {
-		if !cl.AtStore || cl.AtReturn || cl.Callee != name || cl.Fn == nil {
-			continue
-		}
-		if cl.Ordinal > 0 {
-			var sites []*ssa.MapUpdate
-			for _, b := range fr.fn.Blocks {
-				for _, in := range b.Instrs {
-					if m, ok := in.(*ssa.MapUpdate); ok && nameOf(m) == name {
-						sites = append(sites, m)
+		// a source-level local that names this map value
+		for _, b := range f.fn.Blocks {
+			for _, in := range b.Instrs {
+				if d, ok := in.(*ssa.DebugRef); ok && d.X == m.Map && !d.IsAddr {
+					if id, ok := d.Expr.(*ast.Ident); ok {
+						ns = append(ns, id.Name+"[]")
 					}
 				}
 			}
-			sort.Slice(sites, func(i, j int) bool { return sites[i].Pos() < sites[j].Pos() })
+		}
+		return ns
+	}
+	has := func(ns []string, n string) bool {
+		for _, x := range ns {
+			if x == n {
+				return true
+			}
+		}
+		return false
+	}
+	sitesIn := func(f *frame, name string) []*ssa.MapUpdate {
+		var sites []*ssa.MapUpdate
+		for _, b := range f.fn.Blocks {
+			for _, in := range b.Instrs {
+				if m, ok := in.(*ssa.MapUpdate); ok && has(namesOf(f, m), name) {
+					sites = append(sites, m)
+				}
+			}
+		}
+		sort.Slice(sites, func(i, j int) bool { return sites[i].Pos() < sites[j].Pos() })
+		return sites
+	}
+	names := namesOf(fr, x)
+	if len(names) == 0 {
+		return
+	}
+	for _, cl := range root.contract.Asserts {
+		if !cl.AtStore || cl.AtReturn || !has(names, cl.Callee) || cl.Fn == nil {
+			continue
+		}
+		if fr != root && len(sitesIn(root, cl.Callee)) > 0 {
+			continue // the unit's own body has the anchor
+		}
+		if cl.Ordinal > 0 {
+			sites := sitesIn(fr, cl.Callee)
 			if cl.Ordinal > len(sites) || sites[cl.Ordinal-1] != x {
 				continue
 			}
 		}
-		sargs := append([]*Val{}, fr.params...)
+		sargs := append([]*Val{}, root.params...)
 		need := len(cl.Fn.Params) - len(sargs) - len(cl.VarNames)
-		switch need {
-		case 0:
-		case 1:
-			sargs = append(sargs, fr.valOf(x.Key))
-		case 2:
-			sargs = append(sargs, fr.valOf(x.Key), fr.valOf(x.Value))
-		default:
+		if need < 0 || need > 3 {
 			fr.u.eng.stale = append(fr.u.eng.stale, "assert@store "+cl.Label+": parameter mismatch")
 			continue
 		}
+		if need >= 1 {
+			sargs = append(sargs, fr.valOf(x.Key))
+		}
+		if need >= 2 {
+			sargs = append(sargs, fr.valOf(x.Value))
+		}
+		if need == 3 {
+			u := fr.u
+			mt := x.Map.Type().Underlying().(*types.Map)
+			mv := fr.valOf(x.Map)
+			pn, ps, vn, vs := fr.mapHeaps(mt)
+			k := fr.valTerm(fr.valOf(x.Key), st)
+			hp := u.heapGet(st, pn, ps)
+			hv := u.heapGet(st, vn, vs)
+			present := fr.defSort("present", "Bool", fmt.Sprintf("(and (not (= %s 0)) (select (select %s %s) %s))", mv.t, hp, mv.t, k))
+			prev := fr.def("mprev", mt.Elem(), ite(present, fmt.Sprintf("(select (select %s %s) %s)", hv, mv.t, k), u.sorts.zero(mt.Elem())))
+			fr.assumeWF(mt.Elem(), prev, st, reach)
+			sargs = append(sargs, &Val{t: prev})
+		}
 		ok := true
 		for j, ln := range cl.VarLocal {
-			lv := fr.localNamed(ln, x, st)
+			lv := fr.anchorLocal(ln, x, st)
 			if lv == nil && len(sargs)+(len(cl.VarLocal)-j) == len(cl.Fn.Params) {
 				lv = fr.localByType(ln, cl.Fn.Params[len(sargs)].Type(), x, st)
 			}
 			if lv == nil {
-				fr.u.eng.stale = append(fr.u.eng.stale, "assert@store "+cl.Label+": local "+ln+" not found")
+				if !strings.HasSuffix(ln, "?") && !strings.HasPrefix(ln, "reached:") {
+					fr.u.eng.stale = append(fr.u.eng.stale, "assert@store "+cl.Label+": local "+ln+" not found")
+				}
 				ok = false
 				break
 			}
@@ -877,7 +961,7 @@ func (fr *frame) mapUpdateAsserts(x *ssa.MapUpdate, st *State, reach string) {
 			continue
 		}
 		t := fr.evalSpec(cl, sargs, st, nil)
-		fr.u.oblige(fr.obName("assert", cl.Label), "assert", cl.Tags, reach, t, fr.pos(x.Pos()), cl.Text)
+		fr.u.oblige(root.obName("assert", cl.Label), "assert", cl.Tags, reach, t, fr.pos(x.Pos()), cl.Text)
 		fr.u.assertsSeen[cl.Label] = true
 	}
 }
@@ -931,7 +1015,9 @@ func (fr *frame) returnSiteAsserts(x *ssa.Return, st *State, reach string) {
 				lv = fr.localByType(ln, cl.Fn.Params[len(sargs)].Type(), x, st)
 			}
 			if lv == nil {
-				fr.u.eng.stale = append(fr.u.eng.stale, "assert@return "+cl.Label+": local "+ln+" not found")
+				if !strings.HasSuffix(ln, "?") && !strings.HasPrefix(ln, "reached:") {
+					fr.u.eng.stale = append(fr.u.eng.stale, "assert@return "+cl.Label+": local "+ln+" not found")
+				}
 				ok = false
 				break
 			}
